@@ -32,6 +32,9 @@ struct Args {
 }
 
 pub fn main() -> ExitCode {
+    // verification hook (off by default): lets simulated orphan processes run on after scrut is done
+    #[cfg(feature = "verif_sim")]
+    let _verif_sim_drain = scrut::verif_sim::DrainOnDrop::new();
     // init_logging();
     let app = Args::parse();
 
